@@ -40,6 +40,12 @@ def check (params : List String) (lines : List String) : CaseResult := Id.run do
       -- event-based gateway with the determination raced: exactly one alternative wins
       if d != "determ=1" || q != "requests=1" then
         r := { r with specs := s!"ebg_not_one_winner: {d} {q} after the competing flows were released into the determination together" :: r.specs }
+    | ["c17", "condroute", i, b, w, t] =>
+      -- conditions evaluated by many tokens at once: each token takes the branch its own value selects
+      if !((w == "wrote=1" && t == "took=Y") || (w == "wrote=0" && t == "took=N")) then
+        r := { r with specs := s!"outcome:condition_crosstalk: {i} {b} {w} {t} — a token whose answer wrote that value took another branch while other tokens evaluated their conditions at the same instant" :: r.specs }
+    | ["c17", "condincomplete"] =>
+      r := { r with specs := "outcome:condition_crosstalk: an instance did not complete after every task was answered" :: r.specs }
     | "c17" :: "noquiesce" :: _ =>
       r := { r with specs := "outcome:noquiesce: the instance kept running (no quiescence) under concurrent use" :: r.specs }
     | "c17" :: "blocked" :: what =>
